@@ -174,7 +174,7 @@ def gen_del(rng, w):
     return "del|%s|%s/%s" % (kind, ns, name)
 
 
-def gen_history(rng, maxops=12, weights=None, pt=None, cm=None):
+def gen_history(rng, maxops=12, weights=None, pt=None, cm=None, rep=1):
     pt = rng.chance(3, 4) if pt is None else pt
     cm = rng.chance(1, 4) if cm is None else cm
     w = World(rng)
@@ -201,7 +201,38 @@ def gen_history(rng, maxops=12, weights=None, pt=None, cm=None):
             ops.append("delgc")
     if not ops:
         ops.append(gen_ing(rng, w, cm))
-    return line(pt, cm, ops)
+    return line(pt, cm, ops, rep)
+
+
+def gen_listener_history(rng, maxops=10):
+    """TransportServer / GlobalConfiguration histories with listener rename, protocol, port and IP edits."""
+    return gen_history(rng, maxops=maxops, weights=dict(ing=1, vs=2, ts=8, gc=6, delete=3, delgc=1), rep=8)
+
+
+def gen_admission(rng):
+    """A single GlobalConfiguration with up to 7 entries biased to clashes, duplicate and bad names, reserved ports."""
+    names = ["a", "b", "c"]
+    ls = []
+    for _ in range(1 + rng.below(7)):
+        name = rng.choice(names)
+        proto = rng.choice(["TCP", "UDP", "HTTP", "HTTP", "TCP"])
+        port = rng.choice([5000, 5000, 5001, 5353])
+        v4 = rng.choice(["_", "_", "10.0.0.9", "127.0.0.1"])
+        v6 = rng.choice(["_", "_", "::1"])
+        ssl = rng.choice(["0", "1"]) if proto == "HTTP" else "0"
+        r = rng.below(14)
+        if r == 0:
+            port = rng.choice([80, 443, 8080, 9113, 0, 65536])
+        elif r == 1:
+            name = rng.choice(["tls-passthrough", "A", "-a", "_"])
+        elif r == 2:
+            v4 = rng.choice(["1.2.3", "256.1.1.1"])
+        elif r == 3:
+            v6 = "zz::1"
+        elif r == 4:
+            proto = rng.choice(["TLS_PASSTHROUGH", "SCTP"])
+        ls.append("%s>%d>%s>%s>%s>%s" % (name, port, proto, ssl, v4, v6))
+    return line(True, False, ["gc|" + "&".join(ls)])
 
 
 def line(pt, cm, ops, rep=1):
@@ -319,7 +350,7 @@ def parse_spec(o):
         k, v = x.split(":", 1)
         M[k] = v
     S = dict(x.rsplit("=", 1) for x in parts.get("S", "").split(",") if x)
-    return dict(O=O, LO=LO, M=M, S=S)
+    return dict(O=O, LO=LO, M=M, S=S, A=parts.get("A"))
 
 
 def impl_owners(R):
